@@ -6,7 +6,7 @@ stdin : {"reaction": <name>, "formalism": ..., "mode": "replay"|"ref",
          "behaviours": [[["SetAlign",1,"dpd1"],["Formulate",1],...], ...]   (replay)
          "keys": [<key>...]                                                   (ref) }
 stdout: {"results": ...}
-A key is [cfg, choice, perm] with cfg = {"align","stable","scalar","coup","naming"}, choice = {absname: tag}.
+A key is [cfg, choice, perm] with cfg = {"align","stable","scalar","coup","naming": {"parent","child","ls"}}, choice = {absname: tag}.
 """
 from __future__ import annotations
 
@@ -148,12 +148,13 @@ class World:
             bl.config.scalar_initial_state_mass = bool(act[2])
         elif name == "SetCoup":
             bl.config.use_helicity_couplings = bool(act[2])
-        elif name == "SetNaming":
-            # "default" = the options the generator was constructed with (they differ between the helicity and the canonical generator)
-            if hasattr(bl.naming, "insert_parent_helicities"):
-                d = self.naming_defaults.setdefault(b, (bl.naming.insert_parent_helicities, bl.naming.insert_child_helicities))
-                bl.naming.insert_parent_helicities = True if act[2] == "parent" else d[0]
-                bl.naming.insert_child_helicities = (not d[1]) if act[2] == "nochild" else d[1]
+        elif name == "SetNameFlag":
+            # one property setter per action; FALSE = the value the generator was constructed with (the defaults differ between
+            # the helicity and the canonical generator), TRUE = the other one.  The helicity generator has no LS flag: no-op.
+            attr = {"parent": "insert_parent_helicities", "child": "insert_child_helicities", "ls": "insert_ls_combinations"}[act[2]]
+            if hasattr(bl.naming, attr):
+                d = self.naming_defaults.setdefault((b, attr), getattr(bl.naming, attr))
+                setattr(bl.naming, attr, (not d) if act[3] else d)
         elif name == "Assign":
             fn = {"none": create_non_dynamic, "bw": create_relativistic_breit_wigner, "bwff": create_relativistic_breit_wigner_with_ff}[act[3]]
             rn = self.real_name(act[2])
@@ -176,8 +177,11 @@ def key_to_actions(key, b=None):
     if b is None:
         b = 3 if cfg.get("rx") == "sub" else 4 if cfg.get("rx") == "relab" else 1
     acts = [["SetAlign", b, cfg["align"]], ["SetStable", b, cfg["stable"]], ["SetScalar", b, cfg["scalar"]], ["SetCoup", b, cfg["coup"]]]
-    if cfg.get("naming", "default") != "default":
-        acts.append(["SetNaming", b, cfg["naming"]])
+    # the shortest configuration: only the flags that differ from the constructor's (a history that assigns every flag has to
+    # end in the same model)
+    for f in ("parent", "child", "ls"):
+        if cfg.get("naming", {}).get(f):
+            acts.append(["SetNameFlag", b, f, 1])
     for n, t in sorted(choice.items()):
         acts.append(["Assign", b, n, t])
     if perm:
